@@ -1,4 +1,5 @@
 """C15 — repeated assignments: last wins, lists accumulate, empty assignment resets"""
+import gen_units as G
 import core, gen
 from core import hx, unhx
 
@@ -237,4 +238,34 @@ def oracle(ctx):
         if fail:
             res.oracle_failures.append(dict(op=op, input=dict(key=key, history=hist), impl_output=raw, oracle_expectation=fail))
     res.samples.append(dict(kind='oracle-case', history=hists[3], script=core.dec_line(ops[3])[:200]))
+    # every table-driven key of every unit type, by the kind the frozen specification gives it: single-valued keys take the
+    # last assignment, all-values keys accumulate, booleans take the last; with a reset in between
+    import props.c02 as c02
+    tcases = []
+    for ty in G.TYPES:
+        for key, kind, flag in c02.key_specs(ty):
+            if kind not in ('str', 'all', 'allg', 'bool'):
+                continue
+            vals = ['true', 'false'] if kind == 'bool' else ['v-one', 'v-two', 'v-three']
+            for hist in ([vals[0], vals[1]], [vals[1], '', vals[0]], [vals[0], vals[1], vals[-1]] if kind != 'bool' else [vals[0], '', vals[1]]):
+                text = '[' + G.SEC[ty] + ']\n' + ''.join(b + '\n' for b in G.BASE[ty] if not b.startswith(key + '=')) + ''.join(f'{key}={v}\n' for v in hist)
+                tcases.append((ty, key, kind, flag, hist, text))
+    tops = [f'convert\t0\t0\t{hx("/q/t." + ty)}\t{hx(text)}' for ty, key, kind, flag, hist, text in tcases]
+    targv = c02.argv(ctx, ctx.impl(tops))
+    for (ty, key, kind, flag, hist, text), op, av in zip(tcases, tops, targv):
+        if av is None:
+            continue   # the value is not acceptable for this key (enumerated keys): not this property
+        res.oracle_evals += 1
+        eff = ref_list(hist)
+        got = [av[i + 1] for i in range(len(av) - 1) if av[i] == flag]
+        if kind == 'str':
+            want = [hist[-1]] if hist[-1] != '' else []
+        elif kind in ('all', 'allg'):
+            want = eff
+        else:
+            got = [x for x in av if x == flag or x.startswith(flag + '=')]
+            want = [] if hist[-1] == '' else ([flag] if hist[-1] == 'true' else [flag + '=false'])
+        if got != want:
+            res.oracle_failures.append(dict(op=op, input=text, impl_output=str(av)[:500],
+                                            oracle_expectation=f'{key} ({"single-valued" if kind == "str" else "boolean" if kind == "bool" else "all values"}) after {hist}: {flag} {want}, got {got}'))
     ctx.log(f'oracle: {res.oracle_evals} evaluations, {len(res.oracle_failures)} failures')
